@@ -2,8 +2,8 @@
 from pyvc.driver import Job
 from pyvc.values import *
 
-P_ITER = ("C01", "C05", "C06", "C04", "C18")
-P_AGG = ("C02", "C06", "C04", "C18")
+P_ITER = ("C01", "C05", "C06", "C04", "C18", "C20")
+P_AGG = ("C02", "C06", "C04", "C18", "C20")
 
 
 def src_pred(with_pred=True, argorder="fs", fname="function", has_aclose=True):
@@ -54,7 +54,7 @@ def jobs():
     add("starmap", (IT, "starmap"), (RI, "starmap"), src_pred(fname="function"))
     add("accumulate[f]", (IT, "accumulate"), (RI, "accumulate"), one_src([F("function")]))
     add("accumulate[f,initial]", (IT, "accumulate"), (RI, "accumulate"), one_src([F("function")], {"initial": V("initial")}))
-    add("cycle", (IT, "cycle"), (RI, "cycle"), one_src())
+    add("cycle", (IT, "cycle"), (RI, "cycle"), one_src(), opts={"accumulates": "documented: cycle stores all items"})
     # aggregations
     add("all", (B, "all"), (RB, "all"), one_src(), kind="coro", props=P_AGG + ("C05",))
     add("any", (B, "any"), (RB, "any"), one_src(), kind="coro", props=P_AGG + ("C05",))
